@@ -19,7 +19,9 @@ META = {
                         "from the SAME arbitrary symbolic state (q=1), all calibration modes, TS0 and TS1, three factorisations; "
                         "both error estimators; a 2-step fixed-grid solve (leading time axis, caller's structure); jet "
                         "initialisation with a pytree state and a time-dependent field (C10 machinery); permutation (swap) of "
-                        "the two components of a d=2 problem for the isotropic and block-diagonal models (the dense model under permutation is not decided within the budget)",
+                        "the two components of a d=2 problem for the isotropic and block-diagonal models, for the step and for the "
+                        "acceptance quantity; two presentations with equal leaf sizes but different leaf shapes solved one "
+                        "after the other in ONE process (per-structure caches) (the dense model under permutation is not decided within the budget)",
                "thorough": "nested tuple-in-dict pytree with a rank-3 leaf (structured models)"},
     "assumptions": ["A1 reals", "A2/A3 contracts (the triangularisation of syntactically equal matrices is the same matrix)",
                     "vector fields polynomial with symbolic coefficients (A6)"],
@@ -32,6 +34,8 @@ META = {
 TREES = {
     "dict": (lambda x: {"a": x[:2].reshape(1, 2), "b": x[2]},
              lambda u: _cat([u["a"].reshape(-1), u["b"].reshape(-1)]), 3),
+    "dictT": (lambda x: {"a": x[:2].reshape(2, 1), "b": x[2]},
+              lambda u: _cat([u["a"].reshape(-1), u["b"].reshape(-1)]), 3),
     "nested": (lambda x: {"p": (x[0], x[1:3].reshape(1, 2, 1)), "q": x[3:4]},
                lambda u: _cat([u["p"][0].reshape(-1), u["p"][1].reshape(-1), u["q"].reshape(-1)]), 4),
 }
@@ -50,7 +54,10 @@ def cases(tier):
         out.append(f"errest/{ssm}/res/dict")
         out.append(f"errest/{ssm}/state/dict")
         out.append(f"grid/{ssm}/{"none" if ssm == "dense" else "mle"}/ts0/dict")
-    out += ["perm/isotropic/none/ts0", "perm/blockdiag/mle/ts1"]
+    out += ["perm/isotropic/none/ts0", "perm/blockdiag/mle/ts1", "permerr/isotropic/res", "permerr/blockdiag/res"]
+    # two problems with the same leaf sizes but different leaf shapes in ONE process (anything cached per structure shows)
+    for ssm in cm.SSMS:
+        out.append(f"twice/{ssm}/none/ts0/dict+dictT")
     out += ["jet/padded_scan/o1/time/k2/d2/tree", "jet/unroll/o2/time/k2/d2/tree", "jet/via_jvp/o1/time/k2/d2/tree",
             "jet/doubling/o1/time/k2/d2/tree"]
     if tier == "thorough":
@@ -296,9 +303,138 @@ def build_perm(case_id):
     return make, goals
 
 
+def build_permerr(case_id):
+    """the acceptance quantity of a d=2 problem and of the same problem with its two components swapped"""
+    _, ssm, est = case_id.split("/")
+    d, perm = 2, [1, 0]
+    cfg = sc.Cfg(ssm=ssm, q=1, d=d, order=1, lin="ts0", calib="none", strategy="filter", damp="zero")
+    n = cfg.n
+
+    def make(dom):
+        from probdiffeq import probdiffeq
+        co_c = {k: np.ones(s_) for k, s_ in (("c", (d,)), ("C", (d, d)), ("e", (d,)), ("g", (d,)))}
+        solver_c, _, _ = sc.make_solver(cfg, co_c)
+        prior_c = sc.concrete_prior(cfg)
+        prior_s, pinfo = sc.sym_prior(dom, cfg, prior_c, base_scale=(np.ones(()) if ssm == "isotropic" else np.ones((d,))))
+        state, sinfo = sc.sym_state(dom, cfg, solver_c, prior_s)
+        _, Normal = cm.impl(ssm)
+        m1 = sinfo["m"]
+        m2, _ = cm.sym_rv(dom, ssm, n, d, "p")
+        pairs_ = []
+        for a in range(d):
+            ix = (0, a) if ssm == "isotropic" else (a, 0)
+            m1[ix] = dom.input(f"up{a}", positive=True)
+            m2[ix] = dom.input(f"un{a}", positive=True)
+            dom.assume_sign(m1[ix] - m2[ix], 1)
+            pairs_.append((f"up{a}", f"un{a}"))
+
+        def hook(env):
+            for a_, b_ in pairs_:
+                if env[a_] == env[b_]:
+                    env[a_] = env[a_] + 1
+                if env[a_] < env[b_]:
+                    env[a_], env[b_] = env[b_], env[a_]
+        dom.env_hook = hook
+        t2 = sym_array(dom, "tn", ())
+        h = sym_array(dom, "h", (), unit=True)
+        atol = sym_array(dom, "atol", (), unit=True)
+        rtol = sym_array(dom, "rtol", (), unit=True)
+        L = sinfo["L"]
+
+        def pm(m):
+            return m[:, perm] if ssm == "isotropic" else m[perm]
+
+        def pL(L_):
+            return L_ if ssm == "isotropic" else L_[perm]
+        prop = dataclasses.replace(state, t=t2, u=Normal(m2, L, state.u.tree_flatten), solution_full=Normal(m2, L, state.u.tree_flatten))
+        u1p = Normal(pm(m1), pL(L), state.u.tree_flatten)
+        u2p = Normal(pm(m2), pL(L), state.u.tree_flatten)
+        state_p = dataclasses.replace(state, u=u1p, solution_full=u1p)
+        prop_p = dataclasses.replace(prop, u=u2p, solution_full=u2p)
+        co = {"c": sym_array(dom, "f0", (d,)), "e": sym_array(dom, "ft", (d,)), "C": sym_array(dom, "fC", (d, d)),
+              "g": sym_array(dom, "fg", (d,))}
+        co2 = {"c": co["c"][perm], "e": co["e"][perm], "C": co["C"][perm][:, perm], "g": co["g"][perm]}
+
+        def fn(state, prop, state_p, prop_p, h, atol, rtol, co, co2):
+            outs = []
+            for st, pr, c_ in ((state, prop, co), (state_p, prop_p, co2)):
+                _, _, con = sc.make_solver(cfg, c_)
+                e = probdiffeq.error_residual_std(constraint=con, re_linearize_before_error=True)
+                p, _ = e.estimate_error_norm(e.init_error(), st, pr, dt=h, atol=atol, rtol=rtol, damp=0.0)
+                outs.append(p)
+            return outs[0], outs[1]
+        return fn, (state, prop, state_p, prop_p, h, atol, rtol, co, co2)
+
+    def goals(args, out, orc):
+        a, b = out
+        if orc.sym:
+            # x**(-1/rate) is an uninterpreted power: equality of the power atoms' arguments and exponents
+            dom = orc.dom
+            pa = [dom.atoms.get(v) for v in orc.arr(a)[()].vars() if dom.atoms.get(v) and dom.atoms[v][0] == "pow"]
+            pb = [dom.atoms.get(v) for v in orc.arr(b)[()].vars() if dom.atoms.get(v) and dom.atoms[v][0] == "pow"]
+            if len(pa) == 1 and len(pb) == 1:
+                return {"acceptance quantity of the permuted problem = original (argument of the power)": (scalar(pb[0][1]), scalar(pa[0][1])),
+                        "acceptance quantity of the permuted problem = original (exponent)": (
+                            scalar(pb[0][2]), scalar(pa[0][2]))}
+        return {"acceptance quantity of the permuted problem = original (argument of the power)": (orc.arr(b), orc.arr(a)),
+                "acceptance quantity of the permuted problem = original (exponent)": (orc.arr(b), orc.arr(a))}
+    return make, goals
+
+
+def build_twice(case_id):
+    """the same step for two presentations with equal leaf SIZES but different leaf SHAPES, one after the other in one
+    process; the second must come back in ITS caller's structure and with the flat problem's numbers"""
+    _, ssm, calib, lin, trees = case_id.split("/")
+    ta, tb = trees.split("+")
+    cfg = sc.Cfg(ssm=ssm, q=1, d=3, order=1, lin=lin, calib=calib, strategy="filter", damp="zero")
+    d = 3
+
+    def make(dom):
+        import jax
+        import jax.numpy as jnp
+        co_c = {k: np.ones(s_) for k, s_ in (("c", (d,)), ("C", (d, d)), ("e", (d,)), ("g", (d,)))}
+        worlds = {t: _worlds(cfg, t) for t in (ta, tb)}
+        prior_f = worlds[ta][0]
+        (solver_fc, _), _ = worlds[ta][2](co_c)
+        prior_s, pinfo = sc.sym_prior(dom, cfg, prior_f, base_scale=(np.ones(()) if ssm == "isotropic" else np.ones((d,))))
+        state_f, sinfo = sc.sym_state(dom, cfg, solver_fc, prior_s)
+        states = {}
+        for t in (ta, tb):
+            (_, _), (solver_tc, _) = worlds[t][2](co_c)
+            st0 = solver_tc.init(t=0.0, u=worlds[t][1], damp=0.0)
+            states[t] = _retree(st0, state_f)
+        h = sym_array(dom, "h", (), unit=True)
+        co = {"c": sym_array(dom, "f0", (d,)), "e": sym_array(dom, "ft", (d,)), "C": sym_array(dom, "fC", (d, d)),
+              "g": sym_array(dom, "fg", (d,))}
+
+        def fn(state_f, state_a, state_b, h, co):
+            (sf, _), (sa, _) = worlds[ta][2](co)
+            (_, _), (sb, _) = worlds[tb][2](co)
+            of = sf.step(state_f, dt=h, damp=0.0)
+            oa = sa.step(state_a, dt=h, damp=0.0)          # first presentation (fills anything cached per structure)
+            ob = sb.step(state_b, dt=h, damp=0.0)          # second presentation: same sizes, different shapes
+            make.shapes = ([np.shape(x) for x in jax.tree_util.tree_leaves(ob.u.mean)],
+                           [np.shape(x) for x in jax.tree_util.tree_leaves([TREES[tb][0](np.zeros(d))] * cfg.n)])
+            mf = jnp.stack([jnp.ravel(m) for m in of.u.mean])
+            mb = jnp.stack([TREES[tb][1](m) for m in ob.u.mean])
+            ma = jnp.stack([TREES[ta][1](m) for m in oa.u.mean])
+            return mf, ma, mb
+        return fn, (state_f, states[ta], states[tb], h, co)
+
+    def goals(args, out, orc):
+        mf, ma, mb = out
+        res = {"first presentation = flat means": (orc.arr(ma), orc.arr(mf)),
+               "second presentation (other leaf shapes) = flat means": (orc.arr(mb), orc.arr(mf))}
+        got, want = make.shapes       # set while tracing AND when the real function is re-run for a replay
+        one = orc.arr(np.ones(()))
+        res["second presentation comes back in its own leaf shapes"] = (one * (1 if got == want else 0), one)
+        return res
+    return make, goals
+
+
 def _case(case_id, tier):
     kind = case_id.split("/")[0]
-    make, goals = (build_perm if kind == "perm" else build)(case_id)
+    make, goals = {"perm": build_perm, "permerr": build_permerr, "twice": build_twice}.get(kind, build)(case_id)
     return PCase("C15/" + case_id, make, goals, budget_s=300 if tier == "quick" else 1200)
 
 
